@@ -18,7 +18,7 @@ func (eng *Engine) initStubs() {
 	eng.stubs = s
 	vp := func(e *Exec, caller *frame, fn *ssa.Function, args []Value) Value { return e.vpCall(caller, fn, args) }
 	for _, n := range []string{"Bool", "Byte", "Int8", "Uint8", "Int16", "Uint16", "Int32", "Uint32", "Int64", "Uint64", "Int", "Uint",
-		"Bytes", "Choice", "Assume", "Assert", "Cover", "ExpectPanic", "SizeBound", "Unwind", "MaxSteps", "UF", "Symbolic", "Observe", "Now", "FreezeClock", "SetDial", "SetUF"} {
+		"Bytes", "Choice", "Assume", "Assert", "Cover", "ExpectPanic", "SizeBound", "Unwind", "MaxSteps", "UF", "Symbolic", "Observe", "Now", "FreezeClock", "SetDial", "SetUF", "PoolMode"} {
 		s[vpPath+"."+n] = vp
 	}
 	s[vpPath+".Tier"] = func(e *Exec, _ *frame, _ *ssa.Function, _ []Value) Value { return e.tc.BV(uint64(e.eng.tier), 64) }
@@ -46,7 +46,7 @@ func (eng *Engine) initStubs() {
 		p := args[0].(Ptr)
 		items := e.pool[p.cell]
 		if len(items) > 0 {
-			if e.Choice(2) == 0 {
+			if e.poolMode == 1 || (e.poolMode == 0 && e.Choice(2) == 0) {
 				v := items[len(items)-1]
 				e.pool[p.cell] = items[:len(items)-1]
 				return v
